@@ -218,6 +218,91 @@ def guard_factory(fn, n):
     return GuardSpec(fn, n)
 
 
+# ------------------------------------------------------------------------------------------------ alias refusal (UC over find_def)
+
+ALIAS_ALLOW = [r'^ide::rename::find_def$', r'^ide::rename::find_def::\{closure#\d+\}$']
+
+
+class AliasSpec:
+    """ide::rename::find_def executed under-constrained (the helper both prepare_rename and rename use; GuardSpec takes its result as
+    given).  Obligation on every path that returns Some(Left((range, def))): def is the definition classify_node returned for the token
+    under the cursor, and the path passed an equality test -- with the outcome "equal" -- between a string derived from that token and a
+    string derived from Definition::name(def).  A path without it renames through an alias."""
+
+    def make_interp(self):
+        it = W2.interp('ide', uc=True)
+        it.allow = ALIAS_ALLOW
+        return it
+
+    def run_path(self, it):
+        body = W2.crates['ide']['ide::rename::find_def']
+        r = it.run_body(body, [LazyV('sema'), LazyV('fpos')])
+        calls = it.trace
+        var, inner = models.shape(it, r, ['None', 'Some'])
+        if var != 'Some':
+            return {'ok': True, 'cls': 'none'}
+        v2, payload = models.shape(it, inner, ['Left', 'Right'])
+        if v2 != 'Left':
+            return {'ok': True, 'cls': 'refused', 'sample': {'outcome': 'refused (Right)'}}
+        toks = [t for t in calls if t[0].endswith('best_token_at_offset')]
+        cls = [t for t in calls if t[0].endswith('classify_node')]
+        names = [t for t in calls if t[0].endswith('Definition::name')]
+        bad = []
+        d = payload.fields[1] if isinstance(payload, Agg) else payload.kid((None, 1))
+        if not cls or not derives_from(d, cls[0][2], calls):
+            bad.append('C08: find_def returns a definition that is not the one classify_node gave for the token under the cursor')
+        tested = False
+        for (callee, args, res, _) in calls:
+            if not re.search(r'PartialEq.*>::(eq|ne)$|::eq$|::ne$', callee) or len(args) != 2:
+                continue
+            from_tok = [bool(toks) and derives_from(a, toks[0][2], calls) for a in args]
+            from_name = [any(derives_from(a, nm[2], calls) for nm in names) for a in args]
+            if not ((from_tok[0] and from_name[1]) or (from_tok[1] and from_name[0])):
+                continue
+            want_equal = callee.endswith('eq')
+            rr, _m = it.check(res.as_bool().z() if not want_equal else z3.Not(res.as_bool().z()))
+            if rr != z3.sat:          # under this path condition the spellings compared equal
+                tested = True
+        if not tested:
+            kinds = sorted({str(t[0]).split('::')[-2] + '::' + str(t[0]).split('::')[-1] for t in calls if re.search(r'::(cast|kind|can_cast)$', t[0])})
+            bad.append('C08: find_def accepts the position without having compared the spelling under the cursor with the name of the definition (an aliased name is renamed)%s'
+                       % ((' [node tests on the path: %s]' % ', '.join(kinds)) if kinds else ''))
+        rec = {'ok': True, 'cls': 'accepted-after-spelling-test'}
+        if bad:
+            rec = {'ok': False, 'cls': 'violation', 'why': bad, 'cex': {'fn': 'find_def', 'alias': True}}
+        else:
+            rec['sample'] = {'outcome': 'accepted', 'spelling_test': True}
+        return rec
+
+
+def alias_factory():
+    return AliasSpec()
+
+
+ALIAS_APP = ("import dep_mod.{type Bobo as Bb, Ctor as Cc, helper as hh, konst as kk}\n"
+             "fn user(a: Bb) { let x = hh() let y = Cc(1) let z = kk case y { Cc(q) -> q } }\n")
+ALIAS_DEP = "pub type Bobo { Ctor(i: Int) }\npub fn helper() { 1 }\npub const konst = 1\n"
+ALIAS_PROBES = [('type alias at a use site', 'a: Bb', 3, 'Zed'), ('type alias in the import', 'Bobo as Bb', 8, 'Zed'), ('function alias at a call', 'hh()', 0, 'zed'),
+                ('function alias in the import', 'helper as hh', 10, 'zed'), ('constructor alias in an expression', 'Cc(1)', 0, 'Zed'), ('constructor alias in a pattern', 'Cc(q)', 0, 'Zed'),
+                ('constructor alias in the import', 'Ctor as Cc', 8, 'Zed'), ('constant alias at a use site', 'z = kk', 4, 'zed'), ('constant alias in the import', 'konst as kk', 9, 'zed')]
+
+
+def alias_fixture(offset, new_name):
+    # both packages local, so that only the alias rule can refuse
+    return {'files': [{'path': '/app/src/main.gleam', 'text': ALIAS_APP, 'root': 0}, {'path': '/dep/src/dep_mod.gleam', 'text': ALIAS_DEP, 'root': 1}],
+            'roots': [{'path': '/app', 'local': True, 'deps': [1]}, {'path': '/dep', 'local': True, 'deps': []}],
+            'file': 0, 'offset': offset, 'new_name': new_name}
+
+
+def alias_probes(oracle):
+    """public API on every aliased spelling: [(what, accepted by rename, accepted by prepare, raw)]"""
+    out = []
+    for what, needle, delta, nm in ALIAS_PROBES:
+        nat = oracle.ask('rename', json.dumps(alias_fixture(ALIAS_APP.index(needle) + delta, nm)))
+        out.append((what, nat.get('rename', {}).get('ok') is True, nat.get('prepare', {}).get('ok') is True, nat))
+    return out
+
+
 # ------------------------------------------------------------------------------------------------ native replay (public API)
 
 APP = ("import dep_mod\nconst my_const = 1\ntype MyType { MyVariant(my_field: Int) }\ntype MyAlias = Int\n"
@@ -345,12 +430,31 @@ def main(tier, seed):
             chk.violation('prepare-vs-rename', 'bounded', 'prepare_rename and rename accept different (definition kind, locality) combinations: only rename %s, only prepare %s; public API on a dependency symbol: %s'
                           % (only_r, only_p, json.dumps(nat)[:300]), {'only_rename': [list(map(str, x)) for x in only_r], 'only_prepare': [list(map(str, x)) for x in only_p]}, confirmed=differ)
         validate_api(chk, oracle, tables)
+        # c) the alias rule inside find_def
+        res, complete = explore.explore(alias_factory, (), jobs=jobs)
+        chk.add_run('find_def alias refusal (under-constrained)', res, complete, {'callees': 'havoc'}, nontrivial_classes=lambda c: c.startswith(('accepted', 'refused')))
+        probes = alias_probes(oracle)
+        acc = [(w, r, p, nat) for (w, r, p, nat) in probes if r or p]
+        if res.violations:
+            why = '; '.join(sorted({w for v in res.violations for w in v['why']}))
+            if acc:
+                w, r, p, nat = acc[0]
+                chk.violation('find_def:alias', 'bounded', 'find_def: %s; public API, %s: rename ok=%s prepare ok=%s %s' % (why, w, r, p, json.dumps(nat)[:300]),
+                              {'fn': 'find_def', 'alias_probe': w}, confirmed=True)
+            else:
+                chk.inconclusive.append('find_def (under-constrained): %s -- but none of the %d aliased spellings probed through the public API is accepted' % (why, len(probes)))
+        elif acc:
+            chk.inconclusive.append('translator validation FAILED: the engine finds the alias test on every accepting path of find_def, yet the public API accepts: %s' % acc[0][0])
+        else:
+            chk.validated += len(probes)
+            chk.log('alias refusal: %d/%d aliased spellings are refused by rename and prepare_rename through the public API' % (len(probes), len(probes)))
     finally:
         oracle.close(); W2.cleanup()
     chk.assumptions += [
         'part b is under-constrained execution: find_def, Definition::{module,name}, Package::is_local, the usage search and every other database callee return unconstrained values; the lexer and the Option/Result plumbing are real; a path that reaches the usage search is taken as "produces edits"',
         'every under-constrained finding is replayed through the public API (ide::Analysis::{prepare_rename, rename}) on a two-package fixture (one local, one under build/packages) before it is reported',
-        "find_def's alias detection, assemble_graph's build/packages rule and the edit set itself (C07) are outside the claim; names longer than the bounds are outside the claim",
+        "part c: find_def is executed under-constrained; the obligation is that every accepting path passed an equality test between a string derived from the token under the cursor and one derived from Definition::name of the classified definition; that classify_node resolves an aliased spelling to the original definition is assumed (probed through the public API on 9 aliased spellings)",
+        "assemble_graph's build/packages rule and the edit set itself (C07) are outside the claim; names longer than the bounds are outside the claim",
         'keywords = the 15 keywords of the supported grammar (as assert case const external fn if import let opaque panic pub todo type use)']
     chk.trusted += ['rustc MIR', 'mirsym interpreter (full mode for the lexer, under-constrained mode for rename/prepare_rename)', 'z3', 'logos runtime model']
     chk.level = 'model_checking'
